@@ -19,7 +19,7 @@
 From Coq Require Import Reals List Lra Lia.
 From Coquelicot Require Import Coquelicot.
 Import ListNotations.
-Open Scope R_scope.
+Local Open Scope R_scope.
 
 (** finite sums  sum_{i<n} f i *)
 Fixpoint sumn (n : nat) (f : nat -> R) : R :=
@@ -56,15 +56,15 @@ Lemma is_derive_sumn n (f : nat -> R -> R) (d : nat -> R) x :
   is_derive (fun t => sumn n (fun i => f i t)) x (sumn n d).
 Proof.
   induction n as [|n IH]; intros H; simpl.
-  - apply (is_derive_const (K := R_AbsRing) (V := R_NormedModule)).
-  - apply (is_derive_plus (K := R_AbsRing) (V := R_NormedModule)); [apply IH; intros; apply H; lia | apply H; lia].
+  - apply @is_derive_const.
+  - apply @is_derive_plus; [apply IH; intros; apply H; lia | apply H; lia].
 Qed.
 
 Lemma is_derive_Rscal (f : R -> R) x c d : is_derive f x d -> is_derive (fun t => c * f t) x (c * d).
 Proof.
   intros H.
   apply (is_derive_ext (fun t => scal c (f t))); [intros; reflexivity|].
-  apply (is_derive_scal (K := R_AbsRing) f x c d H).
+  apply (is_derive_scal f x c d H).
 Qed.
 
 Section Functional.
@@ -138,30 +138,6 @@ Section Functional.
     forall delta, is_derive (fun t => F (fun j => rho j + t * delta j)) 0 (sumn J (fun j => wj j * delta j * grad rho j)).
   Proof. intros H delta. apply gradient_along, H. Qed.
 
-  (** and conversely ("equivalently"): if for every phi-derivative profile the first variation equals the weighted inner
-      product with the back-convolution, the convolutions are adjoint — stated for one contribution and arbitrary profiles:
-      adjointness is exactly the statement that B c ps is the gradient of the linear functional rho |-> <W c rho, ps>_w *)
-  Lemma adjoint_is_gradient_of_linear c ps delta : (c < C)%nat ->
-    (is_derive (fun t => sumn G (fun k => w k * sumn (A c) (fun a => ps a k * W c (fun j => 0 + t * delta j) a k))) 0
-       (sumn J (fun j => wj j * delta j * B c ps j))) ->
-    (forall a k, W c (fun _ => 0) a k = 0) ->
-    sumn G (fun k => w k * sumn (A c) (fun a => ps a k * W c delta a k)) = sumn J (fun j => wj j * delta j * B c ps j).
-  Proof.
-    intros Hc Hd H0.
-    assert (Hd' : is_derive (fun t => t * sumn G (fun k => w k * sumn (A c) (fun a => ps a k * W c delta a k))) 0
-                    (sumn J (fun j => wj j * delta j * B c ps j))).
-    { eapply is_derive_ext; [|exact Hd]. intros t; cbn beta.
-      rewrite <- sumn_scal. apply sumn_ext; intros k _.
-      transitivity (w k * (t * sumn (A c) (fun a => ps a k * W c delta a k))); [|ring].
-      f_equal. rewrite <- sumn_scal. apply sumn_ext; intros a _.
-      rewrite (W_linear c (fun _ => 0) delta t a k), H0. ring. }
-    assert (Hl : is_derive (fun t => t * sumn G (fun k => w k * sumn (A c) (fun a => ps a k * W c delta a k))) 0
-                    (sumn G (fun k => w k * sumn (A c) (fun a => ps a k * W c delta a k)))).
-    { auto_derive; [exact I | ring]. }
-    apply (is_derive_unique _ _ _ Hl) in Hd'. rewrite <- Hd'.
-    apply is_derive_unique in Hl. symmetry. exact (eq_sym (eq_refl _)).
-  Qed.
-
   (** --------------------------------------------------------------------------------------------------------
       The second-derivative operator of the Newton solver / implicit derivatives ([second_partial_derivatives] +
       [delta_functional_derivative]):  delta (dF/drho) = B ( H (W delta) ),  H = d2phi/dn dn. *)
@@ -193,6 +169,12 @@ Section Functional.
   Qed.
 End Functional.
 
+Lemma adjoint_on_unfold : forall G J C A w wj W B delta,
+  adjoint_on G J C A w wj W B delta <->
+  (forall c (ps : nat -> nat -> R), (c < C)%nat ->
+     sumn G (fun k => w k * sumn (A c) (fun a => ps a k * W c delta a k)) = sumn J (fun j => wj j * delta j * B c ps j)).
+Proof. intros. unfold adjoint_on. tauto. Qed.
+
 (** adjointness from the entry-wise identity  w_k Wm[(a,k), j] = wj_j Bm[j, (a,k)]  on the support of the perturbation —
     the identity the harness checks on the real Cartesian convolvers for every entry of the interior columns *)
 Section MatrixAdjoint.
@@ -215,33 +197,42 @@ Section MatrixAdjoint.
     transitivity (sumn G (fun k => sumn (A c) (fun a => sumn J (fun j => w k * ps a k * Wm c a k j * delta j)))).
     { apply sumn_ext; intros k _. rewrite <- sumn_scal. apply sumn_ext; intros a _.
       rewrite <- !sumn_scal. apply sumn_ext; intros j _. ring. }
-    transitivity (sumn J (fun j => sumn G (fun k => sumn (A c) (fun a => w k * ps a k * Wm c a k j * delta j)))).
-    { rewrite sumn_swap. apply sumn_ext; intros j _. apply sumn_ext; intros k _. reflexivity. }
-    { symmetry. transitivity (sumn G (fun k => sumn J (fun j => sumn (A c) (fun a => w k * ps a k * Wm c a k j * delta j)))).
-      2:{ apply sumn_ext; intros k _. apply sumn_swap. }
-      rewrite sumn_swap. apply sumn_ext; intros j Hj.
-      rewrite <- sumn_scal. rewrite sumn_swap. apply sumn_ext; intros k Hk.
-      rewrite <- sumn_scal. apply sumn_ext; intros a Ha.
-      destruct (Req_dec (delta j) 0) as [Hz | Hnz].
-      - rewrite Hz; ring.
-      - transitivity (ps a k * delta j * (wj j * Bm c j a k)); [ring|]. rewrite <- (Hid c a k j Hc Ha Hk Hj Hnz). ring. }
+    transitivity (sumn J (fun j => sumn (A c) (fun a => sumn G (fun k => wj j * delta j * Bm c j a k * ps a k)))).
+    2:{ apply sumn_ext; intros j _. rewrite <- sumn_scal. apply sumn_ext; intros a _.
+        rewrite <- sumn_scal. apply sumn_ext; intros k _. ring. }
+    transitivity (sumn G (fun k => sumn J (fun j => sumn (A c) (fun a => w k * ps a k * Wm c a k j * delta j)))).
+    { apply sumn_ext; intros k _. apply sumn_swap. }
+    rewrite sumn_swap. apply sumn_ext; intros j Hj.
+    rewrite sumn_swap. apply sumn_ext; intros a Ha. apply sumn_ext; intros k Hk.
+    destruct (Req_dec (delta j) 0) as [Hz | Hnz].
+    - rewrite Hz; ring.
+    - transitivity (ps a k * delta j * (w k * Wm c a k j)); [ring|].
+      rewrite (Hid c a k j Hc Ha Hk Hj Hnz). ring.
   Qed.
 End MatrixAdjoint.
 
 (** non-vacuity: one grid point, one contribution with one weighted density n = 2 rho, phi(n) = n^2, w = 1/2:
     F(rho) = 2 rho^2, the back-convolution is the same factor 2, and the assembled derivative at rho = 3 is
     (in the weighted inner product  wj * delta * grad) the derivative of F: 4 rho delta = 12 delta. *)
+Definition ex_A : nat -> nat := fun _ => 1%nat.
+Definition ex_w : nat -> R := fun _ => / 2.
+Definition ex_W : nat -> (nat -> R) -> nat -> nat -> R := fun _ rho _ _ => 2 * rho 0%nat.
+Definition ex_B : nat -> (nat -> nat -> R) -> nat -> R := fun _ ps _ => 2 * ps 0%nat 0%nat.
+Definition ex_phi : nat -> (nat -> R) -> R := fun _ n => n 0%nat * n 0%nat.
+Definition ex_dphi : nat -> (nat -> R) -> nat -> R := fun _ n _ => 2 * n 0%nat.
+
 Example gradient_instance (delta : R) :
-  is_derive (fun t => F 1 1 (fun _ => 1%nat) (fun _ => / 2) (fun _ rho _ _ => 2 * rho 0%nat) (fun _ n => n 0%nat * n 0%nat)
-                        (fun _ => 3 + t * delta)) 0
-            (sumn 1 (fun j => / 2 * delta * grad 1 1 (fun _ rho _ _ => 2 * rho 0%nat) (fun _ ps _ => 2 * ps 0%nat 0%nat)
-                                                (fun _ n _ => 2 * n 0%nat) (fun _ => 3) j)).
+  is_derive (fun t => F 1 1 ex_w ex_W ex_phi (fun _ => 3 + t * delta)) 0
+            (sumn 1 (fun j => ex_w j * delta * grad 1 ex_W ex_B ex_dphi (fun _ => 3) j)).
 Proof.
-  apply (gradient_along 1 1 1 (fun _ => 1%nat) (fun _ => / 2) (fun _ => / 2)
-           (fun _ rho _ _ => 2 * rho 0%nat) (fun _ ps _ => 2 * ps 0%nat 0%nat)
-           (fun _ n => n 0%nat * n 0%nat) (fun _ n _ => 2 * n 0%nat)).
-  - intros; ring.
-  - intros c n n' H. rewrite (H 0%nat); [reflexivity | simpl; lia].
-  - intros c n m _. simpl. auto_derive; [exact I | ring].
-  - intros c ps _. simpl. ring.
+  apply (gradient_along 1 1 1 ex_A ex_w ex_w ex_W ex_B ex_phi ex_dphi).
+  - intros; unfold ex_W; ring.
+  - intros c n n' H. unfold ex_phi. rewrite (H 0%nat); [reflexivity | unfold ex_A; lia].
+  - intros c n m _. unfold ex_phi, ex_dphi, ex_A. simpl. auto_derive; [exact I | ring].
+  - intros c ps _. unfold ex_A, ex_w, ex_W, ex_B. simpl. ring.
 Qed.
+
+(** the value of that derivative: 4 * 3 * delta / ... spelled out: wj * delta * B(dphi(W rho)) = 1/2 * delta * 2 * (2 * 6) *)
+Example gradient_instance_value (delta : R) :
+  sumn 1 (fun j => ex_w j * delta * grad 1 ex_W ex_B ex_dphi (fun _ => 3) j) = 12 * delta.
+Proof. unfold grad, psi, ex_w, ex_W, ex_B, ex_dphi. simpl. field. Qed.
